@@ -163,6 +163,12 @@ def r2_threshold(ctx):
         f0 = Forcing(body, lambda x, e=e: 0 if x == e else None)
         some_if_true = any(s in f1.reach for s in somes)
         some_if_false = any(s in f0.reach for s in somes)
+        rets_ = set(body.return_blocks())
+        if not (rets_ & set(f1.reach_from(bi))) or not (rets_ & set(f0.reach_from(bi))):
+            # one outcome of this comparison never returns at all (it ends in a panic): an assertion about the tallies (`debug_assert!(present <= total)`),
+            # not the test that decides between Some and None
+            r.info("threshold/assertion", "comparison %s is an assertion (one outcome does not return): not the deciding test" % sig(e)[:120], where)
+            continue
         if some_if_true and some_if_false:
             r.violation("threshold/not-deciding", "Some(..) is reachable on both outcomes of the vote comparison", where)
             continue
